@@ -41,7 +41,8 @@ func (*c18) Rule() string {
 func (*c18) Assumptions() []string {
 	return []string{
 		"encoding/json of the local toolchain (Valid, Decoder.UseNumber) is the executable specification",
-		"input size <= 4 KiB so encoding/json's 10000-level nesting limit (newer than the fork) is never reached",
+		"generated and mutated inputs are <= 4 KiB; a separate family nests arrays/objects 9999..3*10^6 deep around encoding/json's 10000-level limit (validity and totality only)",
+		"generated string values are valid UTF-8 (JSON text cannot carry anything else); three exact invalid strings are probed separately and listed as known findings",
 		"number literals whose float64 value overflows have no reference datum: only totality is required for them",
 		"integer-looking literals beyond int64 cannot be typed int: the decoder must yield the float of the same magnitude (not a different number)",
 	}
@@ -381,7 +382,39 @@ func (c *c18) script() *tengo.Compiled {
 	return cp
 }
 
+// strings that are not valid UTF-8 cannot be carried by JSON text: the encoder emits the raw bytes and
+// both decoders read them back as U+FFFD. Exact inputs, listed as known findings.
+var c18InvalidUTF8 = []string{"a\xffb", "\xc3", "\xed\xa0\x80"}
+
+func (c *c18) invalidUTF8Probes(r *fw.Rec) {
+	for _, in := range c18InvalidUTF8 {
+		var back tengo.Object
+		err := safely(func() error {
+			b, e := tjson.Encode(&tengo.String{Value: in})
+			if e != nil {
+				return e
+			}
+			back, e = tjson.Decode(b)
+			return e
+		})
+		r.Eval()
+		r.Inc("invalid-utf8-probes")
+		if s, ok := back.(*tengo.String); err == nil && ok && s.Value == in {
+			continue
+		}
+		got := fmt.Sprint(err)
+		if back != nil {
+			got = fmt.Sprintf("%q", back.String())
+		}
+		r.Violate(fmt.Sprintf("roundtrip:invalid-utf8-string:%x", in), "decode(encode(s)) != s for a string that is not valid UTF-8",
+			map[string]interface{}{"string_hex": fmt.Sprintf("%x", in), "decoded": got})
+	}
+}
+
 func (c *c18) RunCase(r *fw.Rec, cs fw.Case) {
+	if cs.Index == 0 {
+		c.invalidUTF8Probes(r)
+	}
 	rng := cs.Rng("c18")
 	for i := 0; i < 100; i++ {
 		c.encodeOne(r, rng, i%4 == 0)
@@ -717,7 +750,36 @@ func c18Mutate(r *rand.Rand, s []byte) []byte {
 func (c *c18) decodeOne(r *fw.Rec, rng *rand.Rand, viaScript bool) {
 	var text []byte
 	kind := ""
+	deepN := 0
+	if rng.Intn(5000) == 0 {
+		// nesting around and far beyond encoding/json's 10000-level limit (validity and totality only)
+		deepN = pick(rng, []int{9999, 10000, 10001, 10002, 10001, 10000, 20000, 150000})
+		if rng.Intn(12) == 0 {
+			deepN = 3000000 // the unbounded decoder of the pinned tree dies on this with a fatal stack overflow
+		}
+		if viaScript && deepN > 150000 {
+			deepN = 150000
+		}
+	}
 	switch k := rng.Intn(10); {
+	case deepN > 0:
+		open, close := "[", "]"
+		switch rng.Intn(3) {
+		case 1:
+			open, close = "{\"a\":", "}"
+		case 2:
+			open, close = "[{\"k\":", "}]"
+			deepN /= 2
+		}
+		inner := pick(rng, []string{"", "1", "null", "\"s\""})
+		if strings.HasPrefix(open, "{") && inner == "" {
+			inner = "0"
+		}
+		if open == "[{\"k\":" && inner == "" {
+			inner = "[]"
+		}
+		text = []byte(strings.Repeat(open, deepN) + inner + strings.Repeat(close, deepN))
+		kind = "deep-nesting"
 	case k < 4:
 		var sb strings.Builder
 		c18WriteText(rng, &sb, rng.Intn(5))
@@ -751,7 +813,7 @@ func (c *c18) decodeOne(r *fw.Rec, rng *rand.Rand, viaScript bool) {
 		}
 		kind = "raw"
 	}
-	if len(text) > 4096 {
+	if len(text) > 4096 && kind != "deep-nesting" {
 		text = text[:4096]
 	}
 	valid := gojson.Valid(text)
@@ -789,10 +851,16 @@ func (c *c18) decodeOne(r *fw.Rec, rng *rand.Rand, viaScript bool) {
 	} else {
 		r.Inc("decode:invalid")
 	}
-	if len(text) > 2 {
+	if len(text) > 2 && len(text) < 5000 {
 		r.Distinct("D", string(text))
+	} else if len(text) >= 5000 {
+		r.Distinct("D-deep", fmt.Sprint(len(text)), string(text[:40]))
 	}
-	detail := map[string]interface{}{"text": string(text), "text_hex": fmt.Sprintf("%x", trunc(string(text), 300)), "entry": entry, "json.Valid": valid, "kind": kind}
+	detail := map[string]interface{}{"text": trunc(string(text), 2000), "text_hex": fmt.Sprintf("%x", trunc(string(text), 300)), "entry": entry, "json.Valid": valid, "kind": kind}
+	if kind == "deep-nesting" {
+		detail["nesting_depth"] = deepN
+		detail["text_length"] = len(text)
+	}
 	if err != nil {
 		detail["error"] = err.Error()
 		if p, ok := isPanic(err); ok {
@@ -814,6 +882,9 @@ func (c *c18) decodeOne(r *fw.Rec, rng *rand.Rand, viaScript bool) {
 		return
 	}
 	if !valid {
+		return
+	}
+	if kind == "deep-nesting" {
 		return
 	}
 	// same data
